@@ -185,6 +185,22 @@ CHECKS.update({
     ),
 })
 
+CHECKS.update({
+    "C04": (
+        "exploration",
+        "statistical runtime monitor: z-tests of moments / quantile coverage of adapted chains with replication stage; momentum-law tests at the Math boundary",
+        "All combinations {Diag, LowRank} x {Euclidean, ExactNormal} x {DualAverage, Adam} x six target families with known moments (iso, "
+        "scaled with condition 1e6, correlated, AR(1), Student-t, Gumbel) x dims {1,2,10,50(,100)} run with default settings, several chains "
+        "each. Post-warmup means, variances and 10/50/90% quantile coverage are z-tested with batch-means standard errors (|z| > 7.5 flags); a "
+        "flag counts only if three fresh seeds with 4x the draws flag the same statistic with the same sign. Gaussian targets with condition "
+        "<= 100 must have no post-warmup divergence (also replicated). A delegating Math wrapper records the momentum draw of every trajectory "
+        "of one chain per configuration: at least one refresh per draw, N(0,1) mean / variance / kurtosis / KS, lag-1 correlation, correlation "
+        "with the previous whitened position.",
+        "Statistical: detects effects well above Monte-Carlo error only (a few percent bias in a variance); unconfirmed flags are inconclusive.",
+        "DESIGN.md §3 C04",
+    ),
+})
+
 NOT_YET = {}
 
 
